@@ -617,8 +617,7 @@ pub fn run(ctx: &mut Ctx) {
         ignored actions included), mutates them into invalid ones (must be 404), polls /.status (monotone, \
         possible counts, property list), POSTs /.runtocompletion at a random point and finally decodes each \
         reported property path into a validated witness. Non-trivial: a path with >= 3 states / >= 3 reachable \
-        states / >= 3 valid paths requested."
-        .into();
+        states / >= 3 valid paths requested. (on_demand_requests_during_completion) a burst of 60 requests during a two-second run_to_completion must be accepted without blocking the caller.".into();
     ctx.assumptions = vec![
         "the browser UI (ui/app.js) is not exercised; the HTTP API it consumes is".into(),
         "recent_path, svg and the per-view property lists are not judged".into(),
